@@ -288,6 +288,17 @@ def _str(ex, args, kwargs, node):
 @builtin('sorted')
 def _sorted(ex, args, kwargs, node):
   v = args[0]
+  if v.kind == 'listref':
+    # sorted(q) / sorted(q, reverse=True): a new list with the same multiset,
+    # ascending / descending; q unchanged
+    from mmverif.engine import libcontracts
+    rev = kwargs.get('reverse', VBool(False))
+    if not isinstance(rev, VBool) or not (z3.is_true(z3.simplify(rev.t)) or
+                                          z3.is_false(z3.simplify(rev.t))):
+      ex.unsupported(node, 'sorted(reverse=<non-constant>)')
+    if set(kwargs) - {'reverse'}:
+      ex.unsupported(node, 'sorted with a key')
+    return libcontracts.sorted_copy(ex, v, z3.is_true(z3.simplify(rev.t)))
   if isinstance(v, VTuple):
     return VTuple(list(v.items), tname='list')
   s = to_set(ex, v, node)
